@@ -163,10 +163,9 @@ Proof.
       try reflexivity; try discriminate; try (intro; discriminate).
     exfalso. apply H. reflexivity.
   - destruct (get v e) as [s|].
-    + rewrite andb_true_iff, negb_true_iff, re_match_spec. split.
-      * intros [Hn Hm]. exists s. repeat split; auto. intro; subst; discriminate.
-      * intros (s' & E & Hn & Hm). inversion E; subst s'. split; auto.
-        destruct s; [contradiction Hn; reflexivity | reflexivity].
+    + rewrite re_match_spec. split.
+      * intros Hm. exists s. split; auto.
+      * intros (s' & E & Hm). inversion E; subst s'. exact Hm.
     + split; [discriminate | intros (s' & E & _); discriminate].
 Qed.
 
@@ -316,7 +315,7 @@ Lemma regex_raises_refuted : exists v p e,
   meaning_atom (ARegex v p) e /\ eval_prefix (single (ARegex v p)) e = None.
 Proof.
   exists (VTag [120]), {| p_re := RChr 97; p_eol := false |}, env_xa. split.
-  - exists [97]. split; [reflexivity|]. split; [discriminate|].
+  - exists [97]. split; [reflexivity|].
     exists [97], []. repeat split; try discriminate. constructor.
   - vm_compute. reflexivity.
 Qed.
@@ -353,3 +352,14 @@ Qed.
 Lemma missing_equals_missing : forall v w e,
   get v e = None -> get w e = None -> eval (single (AEq v (OVar w))) e = true.
 Proof. intros v w e Hv Hw. unfold eval, compile, single. cbn. rewrite Hv, Hw. reflexivity. Qed.
+
+(* `if not value: return False` (before fixes/C19-11): a tag whose value is the empty string fails `x ~ ".*"` although
+   the regular expression matches it *)
+Lemma regex_empty_value_refuted : exists v p e,
+  meaning_atom (ARegex v p) e /\ eval_regex_emptyfalse v p e = false /\ eval (single (ARegex v p)) e = true.
+Proof.
+  exists (VTag [120]), {| p_re := RStar RAny; p_eol := false |},
+         {| e_tags := [([120], [])]; e_state := Some Done; e_name := [116] |}.
+  split; [|split; reflexivity].
+  exists []. split; [reflexivity|]. exists [], []. split; [reflexivity|]. split; [constructor|intros; reflexivity].
+Qed.
